@@ -119,10 +119,11 @@ impl <N: Clone + PartialOrd> VecSort<N> for Vec<N> {
                 k += 1;
             }
 
-            arr[k..k + len1].clone_from_slice(&left_arr[i..]);
-            arr[k + len1..k + len1 + len2].clone_from_slice(&right_arr[j..]);
+            arr[k..k + len1 - i].clone_from_slice(&left_arr[i..]);
+            arr[k + len1 - i..k + len1 - i + len2 - j].clone_from_slice(&right_arr[j..]);
         }
 
+        if self.len() <= 1 { return self.clone(); }
         let (array, n) = (&mut self.clone(), self.len());
         let min_run = calc_min_run(n);
 
